@@ -113,12 +113,18 @@ def run(ctx):
     compare_parse(ctx, inputs, "all")
     compare_tokens(ctx, [s for (s, m) in inputs if m == "Module"][-(len(files) + 60):])
     ctx.extra["inputs"] = len(inputs)
+    # the soft-keyword pass under full-lexer: SoftKwFeat.tla (FilterOK) + both builds against the two machines
+    from checks import softkw
+    softkw.run_features(ctx)
 
 
 def replay(ctx, rec):
     c = rec["case"]
     ctx.states = ctx.transitions = 1
-    if c["fam"] == "feature_parse":
+    if c["fam"] == "softkw_feat":
+        from checks import softkw
+        softkw.replay_features(ctx, c)
+    elif c["fam"] == "feature_parse":
         compare_parse(ctx, [(c["src"], c["mode"])], "replay")
     else:
         compare_tokens(ctx, [c["src"]])
